@@ -287,4 +287,9 @@ def r5(ctx):
             ctx.check(got == expect, "C08.R5", con, "contains: nbits=%d cell=%s -> %s" % (nb, name, sorted(expect)), witness=sorted(map(str, got)))
 
 
-RULES = [("C08.R1", r1), ("C08.R2", r2), ("C08.R3", r3), ("C08.R4", r4), ("C08.R5", r5)]
+def r_idioms(ctx):
+    from .common import repo_idioms
+    repo_idioms(ctx, "C08.R6", ('connection',))
+
+
+RULES = [("C08.R1", r1), ("C08.R2", r2), ("C08.R3", r3), ("C08.R4", r4), ("C08.R5", r5), ("C08.R6", r_idioms)]
